@@ -37,6 +37,10 @@ CHECKS["C01"] = dict(
    technique="Lean 4 proof (inductive invariant over a system-call trace acceptor + crash relation; scanner soundness/completeness) + trace-replay correspondence with the real qmail-queue under a simulated libc with fault and crash injection",
    design="DESIGN.md §2 C01")
 
+_DAEMON_NOTE_REAL = NOTE_COMMON + ("Modelled, not verified: the OS semantics of DESIGN.md 1.4 as implemented by harness/sim.c; spawners are scripted by the harness; pipe()/fork()/execv()/waitpid() "
+    "under qmail.c are provided by the harness (they never fail; the real child branch of qmail_open and the real qmail-queue run on them); rewrite() is the identity on the harness's recipients (C10); "
+    "the monitor does not model qmail-send's volatile bookkeeping (numtodo, refs, pass positions) itself but the enabling conditions it must establish; liveness (every message is eventually "
+    "tried) is not stated.")
 _DAEMON_NOTE = NOTE_COMMON + ("Modelled, not verified: the OS semantics of DESIGN.md 1.4 as implemented by harness/sim.c; spawners are scripted by the harness; bounce injection "
     "(qmail.c) is replaced by a stand-in that records the bounce and succeeds/fails as scripted (its atomicity is C01); rewrite() is the identity on the harness's recipients (C10); "
     "the monitor does not model qmail-send's volatile bookkeeping (numtodo, refs, pass positions) itself but the enabling conditions it must establish; liveness (every message is eventually "
